@@ -39,7 +39,7 @@ class FakeSocket:
         self.rxq = []
         self.errq = []
         self.closed = False
-        self.send_fault = None  # callable(address) -> OSError|None
+        self.send_fault = None  # callable(address, data) -> OSError|None
         net.sockets.append(self)
 
     # socket API used by aiocoap --------------------------------------------
@@ -77,7 +77,7 @@ class FakeSocket:
             raise OSError(_errno.EBADF, "closed fake socket")
         data = b"".join(bytes(b) for b in buffers)
         if self.send_fault is not None:
-            exc = self.send_fault(address)
+            exc = self.send_fault(address, data)
             if exc is not None:
                 raise exc
         self.net._sent(self, data, list(ancdata), address)
